@@ -1,4 +1,78 @@
-From NV Require Import Common.Py.
-Theorem C01_placeholder : True.
-Proof. exact I. Qed.
-Print Assumptions C01_placeholder.
+(* Props/C01.v — property C01: waveform sample buffers match a plain list model after every operation
+   history.  Model/Waveform.v is the shared hand model of AnalogWaveform / ComplexWaveform / Spectrum /
+   DigitalWaveform (checks in source order, NumPy zeros/resize/slice-assignment modelled), tied to the
+   code by the pool correspondence (full snapshot of every object after every call).
+   view o := firstn count (skipn start rows) is the data view; good o is the invariant. *)
+From Coq Require Import ZArith List.
+From NV Require Import Common.Py Spec.TimingSpec Model.Timing Model.Waveform Proofs.WfmProofs.
+Open Scope Z_scope.
+
+(* after ANY history of public calls (valid and invalid arguments interleaved, any pool of objects):
+   0 <= start, start + count <= capacity, the view has exactly count samples of signal_count columns *)
+Theorem C01_invariant_reachable : forall ops p, pool_good p -> run_wf p ops -> pool_good (fold_left pnext ops p).
+Proof. exact history_good. Qed.
+Print Assumptions C01_invariant_reachable.
+Theorem C01_invariant_meaning : forall o, good o -> cols_ok o ->
+  (o_start o + o_count o <= cap o)%nat /\ length (view o) = o_count o /\
+  Forall (fun r => length r = o_ncols o) (view o) /\
+  (has_timing (o_kind o) = true -> forall l, t_tss (o_timing o) = Some l -> length l = o_count o /\ monotonic_sm l = true).
+Proof. exact good_meaning. Qed.
+Print Assumptions C01_invariant_meaning.
+Theorem C01_construction_sizes : forall k dt ok sc st ca nc fill t s p o,
+  timing_wf t -> new_obj k dt ok sc st ca nc fill t s p = Ok o -> good o /\ cols_ok o /\ o_timing o = t /\ o_props o = p.
+Proof. exact new_obj_good. Qed.
+Print Assumptions C01_construction_sizes.
+Theorem C01_construction_array : forall k a dr ok st sc ca nc t s p o,
+  arr_ok k a -> timing_wf t -> from_array k a dr ok st sc ca nc t s p = Ok o ->
+  good o /\ cols_ok o /\ o_timing o = t /\ o_props o = p /\
+  exists s0 c0, view o = firstn c0 (skipn s0 (a_rows a)) /\ o_count o = c0 /\ o_start o = s0.
+Proof. exact from_array_good. Qed.
+Print Assumptions C01_construction_array.
+
+(* the view is exactly what a plain list predicts *)
+Theorem C01_append_array : forall o a ts o', good o -> cols_ok o -> arr_ok (o_kind o) a -> append_array o a ts = Ok o' ->
+  good o' /\ cols_ok o' /\ view o' = view o ++ a_rows a /\ o_count o' = (o_count o + alen a)%nat /\
+  o_start o' = o_start o /\ o_props o' = o_props o /\ o_scale o' = o_scale o /\ o_kind o' = o_kind o /\
+  o_dtype o' = o_dtype o /\ o_ncols o' = o_ncols o.
+Proof. exact append_array_spec. Qed.
+Print Assumptions C01_append_array.
+Theorem C01_load_data : forall o a copy start sc o', good o -> cols_ok o -> arr_ok (o_kind o) a -> load_data o a copy start sc = Ok o' ->
+  exists s c, arg_uint start (Some 0) = Ok s /\ arg_uint sc (Some (Z.of_nat (alen a) - s)) = Ok c /\ s + c <= Z.of_nat (alen a) /\
+  good o' /\ cols_ok o' /\ view o' = firstn (Z.to_nat c) (skipn (Z.to_nat s) (a_rows a)) /\ o_count o' = Z.to_nat c /\
+  o_timing o' = o_timing o /\ o_props o' = o_props o /\ o_scale o' = o_scale o /\ o_kind o' = o_kind o /\ o_dtype o' = o_dtype o /\
+  o_ncols o' = o_ncols o.
+Proof. exact load_data_spec. Qed.
+Print Assumptions C01_load_data.
+Theorem C01_capacity_keeps_samples : forall o v o', good o -> set_capacity o v = Ok o' ->
+  good o' /\ view o' = view o /\ o_count o' = o_count o /\ o_start o' = o_start o /\ o_timing o' = o_timing o /\
+  o_props o' = o_props o /\ o_scale o' = o_scale o /\ o_kind o' = o_kind o /\ o_dtype o' = o_dtype o /\ o_ncols o' = o_ncols o /\
+  firstn (o_start o + o_count o) (o_rows o') = firstn (o_start o + o_count o) (o_rows o) /\
+  (exists n, arg_uint v None = Ok n /\ Z.of_nat (cap o') = n).
+Proof. exact set_capacity_spec. Qed.
+Print Assumptions C01_capacity_keeps_samples.
+Theorem C01_sample_count : forall o v o', good o -> set_sample_count o v = Ok o' ->
+  exists n, arg_uint v None = Ok n /\ good o' /\ o_count o' = Z.to_nat n /\
+  view o' = firstn (Z.to_nat n) (skipn (o_start o) (o_rows o)) /\
+  (Z.to_nat n <= o_count o -> view o' = firstn (Z.to_nat n) (view o))%nat /\
+  (o_count o <= Z.to_nat n -> firstn (o_count o) (view o') = view o)%nat /\
+  o_timing o' = o_timing o /\ o_props o' = o_props o /\ o_scale o' = o_scale o /\ o_start o' = o_start o /\ o_rows o' = o_rows o.
+Proof. exact set_sample_count_spec. Qed.
+Print Assumptions C01_sample_count.
+(* get_raw_data / get_data(start, count): the corresponding sub-list, or TypeError / ValueError *)
+Theorem C01_get_data : forall o start sc l, get_data o start sc = Ok l ->
+  exists s c, arg_uint start (Some 0) = Ok s /\ arg_uint sc (Some (Z.of_nat (o_count o) - s)) = Ok c /\
+  s + c <= Z.of_nat (o_count o) /\ l = firstn (Z.to_nat c) (skipn (Z.to_nat s) (view o)).
+Proof. exact get_data_spec. Qed.
+Print Assumptions C01_get_data.
+Theorem C01_get_data_error : forall o start sc e, get_data o start sc = Raise e -> e = TypeError \/ e = ValueError.
+Proof. exact get_data_error. Qed.
+Print Assumptions C01_get_data_error.
+
+Example C01_witness :
+  let o := {| o_kind := KDigital; o_dtype := 6; o_rows := [[0;0];[1;2];[3;4];[0;0]]; o_ncols := 2; o_start := 1; o_count := 2;
+              o_resizable := true; o_timing := empty_timing; o_scale := 0; o_props := [] |} in
+  view o = [[1;2];[3;4]] /\
+  (exists o', append_array o {| a_rows := [[5;6];[7;8]]; a_ndim := 2; a_ncols := 2; a_dtype := 6; a_owns := true |} TsNone = Ok o'
+              /\ view o' = [[1;2];[3;4];[5;6];[7;8]] /\ cap o' = 5%nat) /\
+  load_data o {| a_rows := [[5;6]]; a_ndim := 2; a_ncols := 2; a_dtype := 6; a_owns := true |} true (IInt 0) (IInt 4) = Raise ValueError.
+Proof. cbn zeta. split; [reflexivity|]. split; [eexists; split; [reflexivity|split; reflexivity]|reflexivity]. Qed.
